@@ -91,7 +91,13 @@ func checkBody(d []byte) {
 		return
 	}
 	var got bool
-	if pv, st := vlib.Try(func() { got = txtar.NeedsQuote(d) }); pv != nil {
+	gd, gdChanged := vlib.Guarded(d)
+	defer func() {
+		if c := gdChanged(); c != "" {
+			report("argument-modified", d, "NeedsQuote / Quote: "+c)
+		}
+	}()
+	if pv, st := vlib.Try(func() { got = txtar.NeedsQuote(gd) }); pv != nil {
 		report("needsquote-panic", d, fmt.Sprintf("panic: %v at %s", pv, vlib.RepoFrame(st)))
 		return
 	}
@@ -103,7 +109,7 @@ func checkBody(d []byte) {
 	}
 	var q []byte
 	var qerr error
-	if pv, st := vlib.Try(func() { q, qerr = txtar.Quote(d) }); pv != nil {
+	if pv, st := vlib.Try(func() { q, qerr = txtar.Quote(gd) }); pv != nil {
 		report("quote-panic", d, fmt.Sprintf("panic: %v at %s", pv, vlib.RepoFrame(st)))
 		return
 	}
@@ -120,7 +126,13 @@ func checkBody(d []byte) {
 	atomic.AddInt64(&nQuoted, 1)
 	var u []byte
 	var uerr error
-	if pv, st := vlib.Try(func() { u, uerr = txtar.Unquote(q) }); pv != nil {
+	gq, gqChanged := vlib.Guarded(q)
+	defer func() {
+		if c := gqChanged(); c != "" {
+			report("argument-modified", d, "Unquote: "+c)
+		}
+	}()
+	if pv, st := vlib.Try(func() { u, uerr = txtar.Unquote(gq) }); pv != nil {
 		report("unquote-panic", d, fmt.Sprintf("panic: %v at %s", pv, vlib.RepoFrame(st)))
 		return
 	}
